@@ -206,7 +206,7 @@ def canon_j(j):
         return [canon_j(v) for v in j]
     if isinstance(j, dict) and 'd' in j:
         fields = [[k, canon_j(v)] for k, v in j['d']]
-        if fields and fields[0] == ['type', 'frozenset']:
+        if fields and fields[0] in (['type', 'frozenset'], ['type', 'set']):
             fields = [[k, sorted(v, key=lambda z: json.dumps(z, sort_keys=True)) if k == 'value' and isinstance(v, list) else v]
                       for k, v in fields]
         return {'d': fields}
@@ -304,7 +304,8 @@ def serializable_p(p):
 
 
 def hazards_p(p, out):
-    """features for which the current dict form is ambiguous: bare sets, reserved keys with identifier values"""
+    """features the dict form was ambiguous about before 722783a (plain sets, reserved keys with identifier values);
+    kept as coverage tags — they are no hazards any more"""
     if 'a' in p:
         return
     t = p['t']
